@@ -74,6 +74,7 @@ def check_C05(v, tier, rng):
         codec = rng.choice(['rs', 'def', 'def', 'high', 'low'])
         engine = 'default' if codec == 'rs' else rng.choice(ENGINES)
         cur = None
+        abandoned = False
         for r in range(rounds):
             last = r == rounds - 1
             K, R, sb = small_cfg(rng, codec)
@@ -86,12 +87,20 @@ def check_C05(v, tier, rng):
             if cur is None:
                 start = 'new'
             else:
-                start = rng.choice(['reset', 'reset', 'same', 'parts'] if codec != 'rs' else ['reset', 'reset', 'same'])
-            if start == 'same':
+                opts = ['reset', 'reset', 'reset_same', 'same', 'parts', 'parts_same'] if codec != 'rs' else ['reset', 'reset', 'reset_same', 'same']
+                if abandoned:
+                    opts = [o for o in opts if o != 'same']   # an unfinished round is only forgotten by reset / new
+                start = rng.choice(opts)
+            if start in ('same', 'reset_same', 'parts_same'):
                 K, R, sb = cur
-            if start == 'parts':
+            if start in ('parts', 'parts_same'):
                 codec = rng.choice([c for c in ('def', 'high', 'low') if c in codecs_for(K, R)])
                 engine = rng.choice(ENGINES)
+                start = 'parts'
+            if start == 'reset_same':
+                start = 'reset'
+            # an earlier round may be abandoned half way (adds only, or an encode/decode that fails)
+            abandon_now = (not last) and rng.random() < 0.25
             rpos = len(ops)
             # the encoder is always needed (it produces the recovery shards the decoder consumes)
             if enc_side:
@@ -103,8 +112,14 @@ def check_C05(v, tier, rng):
                     ops += ['E.parts', 'E.neww %s %s %d %d %d' % (codec, engine, K, R, sb)]
                 if rng.random() < 0.3:
                     ops.append(failing_enc_op(rng, K, R, sb, 0))
-                ops += enc_round(rng, K, sb, seed)
-                fresh = ['E.new %s %s %d %d %d' % (codec, engine, K, R, sb)] + enc_round(rng, K, sb, seed)
+                er = enc_round(rng, K, sb, seed)
+                if last and rng.random() < 0.2:
+                    er = er[:rng.randint(0, K - 1)] + er[-1:]      # too few originals
+                if abandon_now:
+                    er = er[:rng.randint(0, K)] + ([] if rng.random() < 0.5 else er[-1:])
+                    er = er if len(er) <= K else er[:K - 1] + er[-1:]
+                ops += er
+                fresh = ['E.new %s %s %d %d %d' % (codec, engine, K, R, sb)] + er
             else:
                 ops.append('E.new %s %s %d %d %d' % (codec if codec != 'rs' else 'rs', engine, K, R, sb))
                 ops += enc_round(rng, K, sb, seed)
@@ -117,10 +132,16 @@ def check_C05(v, tier, rng):
                 if rng.random() < 0.3:
                     ops.append(failing_dec_op(rng, K, R, sb, [], [], 0))
                 adds, os_, rs = dec_round_ops(rng, K, R)
-                ops += adds + ['D.decode -']
+                if last and rng.random() < 0.25:
+                    # a deficient round: too few shards; a reused object must refuse it exactly like a fresh one
+                    adds = adds[:rng.randint(0, K - 1)]
+                if abandon_now:
+                    adds = adds[:rng.randint(0, max(0, K - 1))]
+                ops += adds + ([] if (abandon_now and rng.random() < 0.5) else ['D.decode -'])
                 fresh = ['E.new %s %s %d %d %d' % (codec, engine, K, R, sb)] + enc_round(rng, K, sb, seed) + \
                         ['D.new %s %s %d %d %d' % (codec, engine, K, R, sb)] + adds + ['D.decode -']
             cur = (K, R, sb)
+            abandoned = abandon_now
         cid = 'h%d' % n
         cases.append(Case(cid, ops, dict(kind='history', rounds=rounds, side='enc' if enc_side else 'dec', codec=codec)))
         cases.append(Case(cid + 'f', fresh, dict(kind='fresh')))
@@ -138,7 +159,7 @@ def check_C05(v, tier, rng):
         for tag, res in (('poisoned', impl), ('unpoisoned', impl0)):
             a = (res.get(c.id) or [None])[-1]
             b = (res.get(c.id + 'f') or [None])[-1]
-            if a is None or a != b or not a.startswith('ok'):
+            if a is None or a != b or a in ('panic', 'noobj'):
                 v.violation('last round on a reused object differs from the same round on a fresh object (%s working memory, %s side)'
                             % (tag, c.meta['side']),
                             {'kind': 'oracle', 'oracle': 'fresh object', 'poison_seed': poison if tag == 'poisoned' else 0,
@@ -332,7 +353,8 @@ def check_C07(v, tier, rng):
         filt = []
         for c in cases:
             ri = impl.get(c.id) or []
-            keep = [k for k in range(len(c.ops)) if not (k < len(ri) and ri[k] is not None and ri[k].startswith('err'))]
+            intended = set(c.meta.get('intended_fail', []))
+            keep = [k for k in range(len(c.ops)) if not (k in intended and k < len(ri) and ri[k] is not None and ri[k].startswith('err'))]
             filt.append(Case(c.id + 'x', [c.ops[k] for k in keep], dict(keep=keep)))
         impl2 = run_cases('impl', filt, 'C07x' + prof, profile=prof)
         bad = 0
